@@ -40,6 +40,43 @@ def classify_exception(exc):
     return best[0], "%s:%d %s" % (best[1].filename, best[1].lineno, best[1].name)
 
 
+class Reach:
+    """executed-line recorder for files of the repository under test (sys.monitoring, each location disabled after its first
+    hit, so the overhead is a one-off per line)"""
+
+    TOOL = 3
+
+    def __init__(self):
+        self.hits = {}
+        self.on = False
+
+    def start(self):
+        from . import env
+
+        mon = getattr(sys, "monitoring", None)
+        if mon is None:
+            return
+        root = os.path.join(env.REPO, "openaerostruct") + os.sep
+        hits = self.hits
+
+        def line(code, lineno):
+            fn = code.co_filename
+            if fn.startswith(root):
+                hits.setdefault(fn[len(root):], set()).add(lineno)
+            return mon.DISABLE
+
+        try:
+            mon.use_tool_id(self.TOOL, "oasverif-reach")
+            mon.register_callback(self.TOOL, mon.events.LINE, line)
+            mon.set_events(self.TOOL, mon.events.LINE)
+            self.on = True
+        except Exception:  # noqa: BLE001
+            self.on = False
+
+    def dump(self):
+        return {k: sorted(v) for k, v in self.hits.items()}
+
+
 def run_one(mod, case):
     from .obs import Obs
 
@@ -87,6 +124,9 @@ def main(argv):
     cases = json.load(open(infile))
     scratch = tempfile.mkdtemp(prefix="oasverif_")
     os.chdir(scratch)
+    reach = Reach()
+    if os.environ.get("VERIF_REACH", "1") == "1":
+        reach.start()
     try:
         with open(outfile, "a") as out:
             for idx, case in cases:
@@ -95,6 +135,8 @@ def main(argv):
                 res = run_one(mod, case)
                 out.write(json.dumps({"i": idx, "result": res}) + "\n")
                 out.flush()
+            if reach.on:
+                out.write(json.dumps({"reach": reach.dump()}) + "\n")
     finally:
         os.chdir("/")
         shutil.rmtree(scratch, ignore_errors=True)
